@@ -1,4 +1,5 @@
 import Fdo.Gen.Kex
+import Fdo.Kex.Spec
 /-
 C09 — every supported crypto configuration onboards; forbidden ones are refused.
 The quantifier is a finite product, decided by executing the whole product (thorough tier of the
@@ -6,16 +7,7 @@ harness: 2352 tuples) against the expected outcome computed from the library's o
 tables; the theorems here tie those regenerated tables to FDO 1.1 §3.6.5.
 -/
 namespace Fdo.Props.C09
-open Fdo
-
-/-- FDO 1.1 §3.6.5 written as rules, independently of the code: with an ECDSA device key the
-key exchange follows the owner key — ECDH256 for P-256, ECDH384 for P-384, DHKEXid14 or
-ASYMKEX2048 for RSA-2048, DHKEXid15 or ASYMKEX3072 for RSA-3072. -/
-def specValidEc (suite owner : String) : Bool :=
-  (owner == "P256" && suite == "ECDH256") ||
-  (owner == "P384" && suite == "ECDH384") ||
-  (owner == "RSA2048" && (suite == "DHKEXid14" || suite == "ASYMKEX2048")) ||
-  (owner == "RSA3072" && (suite == "DHKEXid15" || suite == "ASYMKEX3072"))
+open Fdo Fdo.Kex
 
 /-- The table obtained by executing `kex.Suite.Valid` over every (suite, device signature
 algorithm, owner key kind) agrees with the specification's rules on every ECDSA-device row. -/
